@@ -706,31 +706,63 @@ theorem reads_keep_no_state_on_the_object :
       "_Image._generate_temp_tables", "_Image.get_stored_frame"].all fun f => readPathFunctions.contains f) = true := by
   decide
 
-/-- **No lock survives a read** (T8r; what lets the state machine treat a temporary table as "exists / does not exist"): both
-iterators run their frame query before the `yield` and close its cursor in a `finally` around it, so a read that raises part
-way through the rows — whose exception the caller may keep — leaves tables behind but no open query on them.  A table left
-behind is dropped by the next read (`temp_table_program_is_restartable`); a table left LOCKED could not be ("database table is
-locked", defect C02-stack-cursor-left-open, fixed 33861f5; the tiled iterator e921751).  Exercised by the correspondence: half
-of the histories are run by a caller that keeps every exception. -/
+/-- the program a read runs around its frame loop, as extracted from the current source (T8r): table operations before and after
+the `yield` of `_generate_temp_tables`, whether the clean-up is in `try … finally`, and whether every query cursor on a read path
+is closed or exhausted on every exit -/
+def readProgram : SegState.Prog := ⟨tempTablesPre, tempTablesPost, tempTablesGuarded, cursorsClosedOnExit⟩
+
+/-- **No query outlives a read** (T8r): every query executed by a function on a read path is a statement, is handed at once to
+`list` / `set` / `next` / `fetchone` / an eager comprehension, or — the two frame queries, which are iterated lazily while the
+frames are read — has its cursor closed in a `finally` around the `yield`.  So a read that raises part way through the rows, whose
+exception the caller may keep, leaves tables behind but no open query on them.  This is the premise `closes` of the state
+machine: a table left behind is dropped by the next read, a table left LOCKED cannot be ("database table is locked": defect
+C02-stack-cursor-left-open, fixed 33861f5; the tiled iterator e921751). -/
 theorem frame_query_cursor_is_closed :
+    cursorsClosedOnExit = true ∧
+    (queryCursorUse.all fun u => u.2 == "statement" || u.2 == "consumed" || u.2 == "closed-on-exit") = true ∧
     frameQueryCursorClosed = [("_iterate_indices_for_stack", true), ("_iterate_indices_for_tiled_region", true)] := by decide
 
-/-- **State-independence of reads**: take any object state (any temporary tables left behind, pixel array cached or not) and
-any history of operations — reads of any kind, accepted or refused, and looks at `pixel_array` — then every read answers
-exactly as it would on a fresh object (`stateless`), in particular a request repeated later gets the same answer.  Hypotheses:
-`hlen` every read uses the object's tables; `hlaw` the frames taken from the cached array are the frames decoded one by one
-(pydicom's whole-array decoding vs frame decoding — exercised by the correspondence, which accesses `pixel_array` at a random
-step of every history). -/
+/-- **State-independence of reads** over the machine with tables, LOCK and pixel cache (`Model/SegReadState.lean`).  Take any
+state in which no lock is in force — any temporary tables left behind, pixel array cached or not; a fresh or freshly parsed
+object is such a state — and any history of operations: reads of any kind, accepted or refused, refused before or inside the
+frame loop, with the caller KEEPING the exception or not; looks at `pixel_array`; the caller releasing what it kept.  Then every
+read answers exactly as on a fresh object (`stateless`), in particular a request repeated later gets the same answer.  What
+carries the proof: `temp_table_program_is_restartable` (left-over tables are dropped first) and `frame_query_cursor_is_closed`
+(no read leaves a lock: `withTemp_answer` shows the lock flag stays false).  Hypotheses: `hlen` every read uses the object's
+tables; `hlaw` the frames taken from the cached array are the frames decoded one by one (pydicom's whole-array decoding vs
+frame decoding — a law about pydicom, exercised by the correspondence, which accesses `pixel_array` at a random step of every
+history).  A state WITH a lock in force is outside: there the first read fails whatever the program does — and
+`open_cursor_breaks_state_independence` shows such states are reached from a fresh object as soon as `closes` is false. -/
 theorem reads_are_state_independent (n : Nat) (ops : List (SegState.Op Out))
-    (hlen : ∀ f d c, SegState.Op.read f d c ∈ ops → f.length = n) (hlaw : ∀ f d c, SegState.Op.read f d c ∈ ops → c = d)
-    (σ σ' : SegState.ObjState) (hσ : σ.db.length = n) (hσ' : σ'.db.length = n) :
-    SegState.run tempTablesGuarded tempTablesPre tempTablesPost ops σ = ops.map SegState.stateless ∧
-    SegState.run tempTablesGuarded tempTablesPre tempTablesPost ops σ =
-      SegState.run tempTablesGuarded tempTablesPre tempTablesPost ops σ' := by
-  have hp := SegState.progFacts_of_ok _ _ temp_table_program_is_restartable
-  have h1 := SegState.run_stateless tempTablesGuarded _ _ hp n ops hlen hlaw σ hσ
-  have h2 := SegState.run_stateless tempTablesGuarded _ _ hp n ops hlen hlaw σ' hσ'
+    (hlen : ∀ f k x d c, SegState.Op.read f k x d c ∈ ops → f.length = n)
+    (hlaw : ∀ f k x d c, SegState.Op.read f k x d c ∈ ops → c = d)
+    (σ σ' : SegState.ObjState) (hσ : σ.db.length = n) (hσ' : σ'.db.length = n) (hl : σ.locked = false)
+    (hl' : σ'.locked = false) :
+    SegState.run readProgram ops σ = ops.map SegState.stateless ∧
+    SegState.run readProgram ops σ = SegState.run readProgram ops σ' := by
+  have hp : SegState.ProgFacts readProgram.pre readProgram.post :=
+    SegState.progFacts_of_ok _ _ temp_table_program_is_restartable
+  have hc : readProgram.closes = true := frame_query_cursor_is_closed.1
+  have h1 := SegState.run_stateless readProgram hp hc n ops hlen hlaw σ hσ hl
+  have h2 := SegState.run_stateless readProgram hp hc n ops hlen hlaw σ' hσ' hl'
   exact ⟨h1, by rw [h1, h2]⟩
+
+/-- **Counterexample for the unfixed shape** (the program as it was before 33861f5: same table operations, cursor of the frame
+query not closed): on a FRESH object, a read refused inside the frame loop whose exception the caller keeps, followed by any
+read — the second read fails ("database table is locked": the drop-if-exists of a locked table) although it would succeed on a
+fresh object; once the caller releases the exception the same read succeeds again.  Moving the clean-up into `try … finally`
+does not help: it then runs against the locked tables.  So state independence is exactly as strong as `closes`. -/
+theorem open_cursor_breaks_state_independence (a : Out) :
+    let unfixed : SegState.Prog := { readProgram with closes := false }
+    let refused : SegState.Op Out := .read [false, false] true false (.error .runtime) (.error .runtime)
+    let good : SegState.Op Out := .read [false, false] false true (.ok a) (.ok a)
+    SegState.run unfixed [refused, good, .release, good] ⟨false, [false, false], false⟩ =
+      [some (.error .runtime), some (.error .other), none, some (.ok a)] ∧
+    SegState.run { unfixed with guarded := true } [refused, good] ⟨false, [false, false], false⟩ =
+      [some (.error .runtime), some (.error .other)] ∧
+    SegState.run readProgram [refused, good, .release, good] ⟨false, [false, false], false⟩ =
+      [some (.error .runtime), some (.ok a), none, some (.ok a)] := by
+  refine ⟨?_, ?_, ?_⟩ <;> rfl
 
 /-! ## The hand-written loops use the expressions of the source (tie T: T8j, T8k, T8m)
 
@@ -1270,15 +1302,16 @@ read every later read fails on CREATE TABLE. -/
 def exHistory : List (SegState.Op Out) :=
   let bad := SegRead.read exBin .all true { keys := [8, 7], segs := [2, 1], combine := true, relabel := false, rescale := true, skipOverlap := false, dtype := none }
   let a := SegRead.read exBin .all true { keys := [8, 7], segs := [3, 1], combine := true, relabel := true, rescale := true, skipOverlap := false, dtype := none }
-  [.read [false, false] bad bad, .touch, .read [false, false] a a, .read [false, true] bad bad, .read [false, false] a a]
+  [.read [false, false] true false bad bad, .touch, .read [false, false] false true a a, .read [false, true] true true bad bad,
+   .release, .read [false, false] false true a a]
 
-example : SegState.run tempTablesGuarded tempTablesPre tempTablesPost exHistory ⟨false, [false, false]⟩ =
-    [some (.error .runtime), none, some (.ok (.combined [[2, 0, 1], [2, 2, 0]])), some (.error .other),
+example : SegState.run readProgram exHistory ⟨false, [false, false], false⟩ =
+    [some (.error .runtime), none, some (.ok (.combined [[2, 0, 1], [2, 2, 0]])), some (.error .other), none,
      some (.ok (.combined [[2, 0, 1], [2, 2, 0]]))] := by decide
 
 example : SegState.tempProgOk [.create, .insert] [.drop] = false ∧
-    SegState.run false [.create, .insert] [.drop] exHistory ⟨false, [false, false]⟩ =
-      [some (.error .runtime), none, some (.error .other), some (.error .other), some (.error .other)] := by decide
+    SegState.run ⟨[.create, .insert], [.drop], false, true⟩ exHistory ⟨false, [false, false], false⟩ =
+      [some (.error .runtime), none, some (.error .other), some (.error .other), none, some (.error .other)] := by decide
 
 /-! the hypotheses of the remaining round-2 theorems are satisfiable on the example objects -/
 
@@ -1305,15 +1338,15 @@ example : (.stacked 1 [[[0, 0, 1], [1, 0, 0]]] : Out) = .stacked 1 [[[0, 0, 1], 
     (by decide) (by decide)
 /-- the example history meets the hypotheses of the state-independence theorem: started with both tables left behind and the
 pixel array cached it answers as from a clean object -/
-example : SegState.run tempTablesGuarded tempTablesPre tempTablesPost exHistory ⟨true, [true, true]⟩ =
-    SegState.run tempTablesGuarded tempTablesPre tempTablesPost exHistory ⟨false, [false, false]⟩ :=
+example : SegState.run readProgram exHistory ⟨true, [true, true], false⟩ =
+    SegState.run readProgram exHistory ⟨false, [false, false], false⟩ :=
   (reads_are_state_independent 2 exHistory
-    (by intro f d c hm
+    (by intro f k x d c hm
         simp only [exHistory, List.mem_cons, SegState.Op.read.injEq, List.not_mem_nil, or_false, reduceCtorEq, false_or] at hm
         rcases hm with h | h | h | h <;> rw [h.1] <;> rfl)
-    (by intro f d c hm
+    (by intro f k x d c hm
         simp only [exHistory, List.mem_cons, SegState.Op.read.injEq, List.not_mem_nil, or_false, reduceCtorEq, false_or] at hm
-        rcases hm with h | h | h | h <;> rw [h.2.1, h.2.2])
-    ⟨true, [true, true]⟩ ⟨false, [false, false]⟩ rfl rfl).2
+        rcases hm with h | h | h | h <;> rw [h.2.2.2.1, h.2.2.2.2])
+    ⟨true, [true, true], false⟩ ⟨false, [false, false], false⟩ rfl rfl rfl rfl).2
 
 end HdVerif.C02
